@@ -1982,7 +1982,18 @@ pub fn c19big_child(a: &Args) {
 pub fn c19big(a: &Args) -> Report {
     let mut rep = Report::new(&a.prop, "vgraph c19big (resource-limited children)", &a.tier_name);
     let exe = std::env::current_exe().expect("exe");
-    let results: Vec<(String, String)> = BIG_PATTERNS
+    // DEPTH: groups, optional groups, lazy groups and bracketed classes nested 200 / 300 / 3 000 /
+    // 20 000 deep (regex-syntax refuses beyond its nest limit; whatever the derive does with such a
+    // pattern, it must answer - a stack overflow kills the compiler)
+    let mut all_patterns: Vec<String> = BIG_PATTERNS.iter().map(|p| p.to_string()).collect();
+    for n in [200usize, 300, 3000, 20_000] {
+        all_patterns.push(format!("{}a{}", "(".repeat(n), ")".repeat(n)));
+        all_patterns.push(format!("{}a{}", "(?:".repeat(n), ")".repeat(n)));
+        all_patterns.push(format!("x{}a{}", "(?:".repeat(n), ")?".repeat(n)));
+        all_patterns.push(format!("{}a{}", "(b|".repeat(n), ")".repeat(n)));
+        all_patterns.push(format!("{}a{}", "[b[".repeat(n / 2), "]]".repeat(n / 2)));
+    }
+    let results: Vec<(String, String)> = all_patterns
         .par_iter()
         .map(|p| {
             let src = format!("enum T {{ #[regex(\"{p}\")] A }}");
@@ -2048,6 +2059,9 @@ pub fn c19big(a: &Args) -> Report {
         rep.count("distinct_nontrivial", 1);
         if line.starts_with("OUTCOME panic") {
             rep.violations.push(viol("PANIC", "c19big", format!("regex {p}"), format!("generate() panicked: {line}"), json!({"pattern": p})));
+        } else if line.starts_with("DIED") && p.len() > 300 {
+            let short: String = p.chars().take(24).collect();
+            rep.violations.push(viol("CRASH", "c19big", format!("regex {short}... ({} characters of nested groups)", p.len()), format!("the derive kills its process instead of reporting a diagnostic: {line}"), json!({"pattern_len": p.len()})));
         } else if line.starts_with("DIED") {
             rep.violations.push(Violation {
                 key: format!("RESOURCE/{p}"),
@@ -2058,6 +2072,7 @@ pub fn c19big(a: &Args) -> Report {
             });
         }
         rep.observe(&format!("big:{}", line.split_whitespace().take(2).collect::<Vec<_>>().join("_")), 1);
+        let _ = &p;
     }
     rep
 }
